@@ -43,6 +43,7 @@ func init() {
 	families["fault_load"] = genFaultLoad
 	families["big_dict_merge"] = genBigDictMerge
 	families["block_drop"] = genBlockDrop
+	families["stat_edges"] = genStatEdges
 	families["big_freq"] = genBigFreq
 	families["giant_posting"] = genGiantPosting
 	families["pool_vocab"] = genPoolVocab
@@ -891,6 +892,18 @@ func genMatch(r *rand.Rand, i int) Scenario {
 		Op{Op: "load", File: 8, Seg: 8, Backing: "mem"},
 		Op{Op: "merge", File: 9, In: []int{2, 3}, Drops: []DropSpec{{Kind: "nil"}, {Kind: "nil"}}, Mode: 0, Buf: 64},
 		Op{Op: "load", File: 9, Seg: 9, Backing: "mem"})
+	if len(b1) > 0 {
+		// the same segment listed twice, the second time without its first document
+		sc.Ops = append(sc.Ops, Op{Op: "merge", File: 13, In: []int{1, 1}, Drops: []DropSpec{{Kind: "nil"}, {Kind: "set", Docs: []int{0}}}, Mode: 0, Buf: 64},
+			Op{Op: "load", File: 13, Seg: 13, Backing: "mem"})
+		for _, f := range fnames {
+			ts := append([]Pair{}, byField[f]...)
+			if len(ts) > 10 {
+				ts = ts[:10]
+			}
+			sc.Ops = append(sc.Ops, Op{Op: "match", Seg: 13, Pairs: ts})
+		}
+	}
 	for _, f := range fnames {
 		ts := append([]Pair{}, byField[f]...)
 		r.Shuffle(len(ts), func(i, j int) { ts[i], ts[j] = ts[j], ts[i] })
@@ -1891,6 +1904,22 @@ func genIterShare(r *rand.Rand, i int) Scenario {
 			Op{Op: "pl_open", Seg: seg, Field: "a", Term: B([]byte("y")), Pl: 61}, Op{Op: "it_open", Pl: 61, It: 70, Prealloc: 70, Freq: true, Norm: true, Locs: true}, Op{Op: "it_next_last"},
 			Op{Op: "pl_open", Seg: seg, Field: []string{"a", "nosuchfield"}[(i/4)%2], Term: B([]byte("zzz")), Pl: 62}, Op{Op: "it_open", Pl: 62, It: 71, Freq: true, Norm: true, Locs: true},
 			Op{Op: "it_next", It: 71}, Op{Op: "it_next", It: 71}, Op{Op: "it_next", It: 70}, Op{Op: "it_next", It: 70}, Op{Op: "it_count", It: 71})
+	}
+	if i%4 == 1 {
+		// ONE list and ONE iterator recycled through present, absent, absent, present terms: the iterator the second
+		// absent term gets as prealloc is the shared empty one the first absent term returned; readers of other absent
+		// terms (fresh objects, also on the other segment) must still see nothing
+		sc.Ops = append(sc.Ops,
+			Op{Op: "pl_open", Seg: seg, Field: "a", Term: B([]byte("y")), Pl: 80}, Op{Op: "pl_count", Pl: 80},
+			Op{Op: "pl_open", Seg: seg, Field: "a", Term: B([]byte("nope")), Pl: 80, Prealloc: 80},
+			Op{Op: "it_open", Pl: 80, It: 90, Freq: true, Norm: true, Locs: true}, Op{Op: "it_next", It: 90},
+			Op{Op: "pl_open", Seg: seg, Field: "a", Term: B([]byte("nope2")), Pl: 80, Prealloc: 80},
+			Op{Op: "it_open", Pl: 80, It: 90, Prealloc: 90, Freq: true, Norm: true, Locs: true}, Op{Op: "it_next", It: 90},
+			Op{Op: "pl_open", Seg: seg, Field: "a", Term: B([]byte("x")), Pl: 80, Prealloc: 80}, Op{Op: "pl_count", Pl: 80},
+			Op{Op: "pl_open", Seg: seg, Field: "a", Term: B([]byte("zzz")), Pl: 81}, Op{Op: "it_open", Pl: 81, It: 91, Freq: true, Norm: true, Locs: true},
+			Op{Op: "it_count", It: 91}, Op{Op: "it_next", It: 91},
+			Op{Op: "pl_open", Seg: 1, Field: "nosuchfield", Term: B([]byte("q")), Pl: 82}, Op{Op: "it_open", Pl: 82, It: 92}, Op{Op: "it_count", It: 92}, Op{Op: "it_next", It: 92},
+			Op{Op: "it_open", Pl: 80, It: 93, Freq: true, Norm: true, Locs: true}, Op{Op: "it_next", It: 93}, Op{Op: "digest"})
 	}
 	if i%4 == 2 && seg == 1 {
 		// one caller-owned bitmap installed with ReplaceActual in two iterators; one of them is drained and recycled
